@@ -6,6 +6,8 @@ package drpcsignal
 import (
 	"sync"
 	"sync/atomic"
+
+	"storj.io/drpc/drpcdebug"
 )
 
 type signalStatus = uint32
@@ -32,6 +34,7 @@ func (s *Signal) Wait() {
 // Signal returns a channel that will be closed when the signal is set.
 func (s *Signal) Signal() chan struct{} {
 	if atomic.LoadUint32(&s.status)&statusChannelCreated != 0 {
+		drpcdebug.Point("signal.Signal.fast")
 		return s.ch
 	}
 	return s.signalSlow()
@@ -40,11 +43,15 @@ func (s *Signal) Signal() chan struct{} {
 // signalSlow is the slow path for Signal, so that the fast path is inlined into
 // callers.
 func (s *Signal) signalSlow() chan struct{} {
+	drpcdebug.Point("signal.signalSlow.enter")
 	s.mu.Lock()
+	drpcdebug.Point("signal.signalSlow.locked")
 	if set := s.status; set&statusChannelCreated == 0 {
 		s.ch = make(chan struct{})
+		drpcdebug.Point("signal.signalSlow.made")
 		atomic.StoreUint32(&s.status, set|statusChannelCreated)
 	}
+	drpcdebug.Point("signal.signalSlow.unlock")
 	s.mu.Unlock()
 	return s.ch
 }
@@ -61,24 +68,30 @@ func (s *Signal) Set(err error) (ok bool) {
 // setSlow is the slow path for Set, so that the fast path is inlined into
 // callers.
 func (s *Signal) setSlow(err error) (ok bool) {
+	drpcdebug.Point("signal.setSlow.enter")
 	s.mu.Lock()
+	drpcdebug.Point("signal.setSlow.locked")
 	if status := s.status; status&statusErrorSet == 0 {
 		ok = true
 
 		s.err = err
+		drpcdebug.Point("signal.setSlow.err")
 		if status&statusChannelCreated == 0 {
 			s.ch = closed
 		}
+		drpcdebug.Point("signal.setSlow.ch")
 
 		// we have to store the flags after we set the channel but before we
 		// close it, otherwise there are races where a caller can hit the
 		// atomic fast path and observe invalid values.
 		atomic.StoreUint32(&s.status, statusErrorSet|statusChannelCreated)
+		drpcdebug.Point("signal.setSlow.stored")
 
 		if status&statusChannelCreated != 0 {
 			close(s.ch)
 		}
 	}
+	drpcdebug.Point("signal.setSlow.unlock")
 	s.mu.Unlock()
 	return ok
 }
@@ -87,6 +100,7 @@ func (s *Signal) setSlow(err error) (ok bool) {
 // the result is valid.
 func (s *Signal) Get() (error, bool) {
 	if atomic.LoadUint32(&s.status)&statusErrorSet != 0 {
+		drpcdebug.Point("signal.Get.fast")
 		return s.err, true
 	}
 	return nil, false
@@ -102,6 +116,7 @@ func (s *Signal) IsSet() bool {
 // the Signal has been set, but the inverse is not true.
 func (s *Signal) Err() error {
 	if atomic.LoadUint32(&s.status)&statusErrorSet != 0 {
+		drpcdebug.Point("signal.Err.fast")
 		return s.err
 	}
 	return nil
